@@ -463,15 +463,12 @@ func (m *machine) lookup(h common.Hash, what string) {
 }
 
 func drainPool(pool service.TransactionPool) {
-	var hs []common.Hash
-	for _, tx := range pool.GetReceived() {
-		hs = append(hs, tx.Hash)
-	}
-	if len(hs) > 0 {
-		pool.MarkExecuted(&types.BlockHeader{}, nil, nil, hs)
-	}
+	service.VerifDrainPending() // hook: clean-up independent of the operations under test
 }
 
+// One node per process for the pool-level tests (a second boot in the same process would let
+// the first node's background goroutines touch re-initialised package globals - noise for the
+// race detector); only the reorg part boots its own nodes, after dropping this one.
 var poolNode *boot.Node
 
 func needNode(t *testing.T) {
@@ -494,7 +491,6 @@ func dropNode() {
 
 func TestPoolStateMachine(t *testing.T) {
 	needNode(t)
-	defer dropNode()
 	pool := boot.Pool()
 	stats.Check(t, 2500, 8000, func(t *rapid.T) {
 		m := &machine{t: t, pool: pool, salt: atomic.AddUint64(&caseSeq, 1),
@@ -967,7 +963,6 @@ const findingAddVsMark = "F-C17-b"
 
 func TestConcurrentMixes(t *testing.T) {
 	needNode(t)
-	defer dropNode()
 	pool := boot.Pool()
 	stats.Check(t, 200, 1000, func(t *rapid.T) {
 		salt := atomic.AddUint64(&caseSeq, 1)
@@ -1295,7 +1290,6 @@ func TestChildGateBatch(t *testing.T) {
 		t.Skip("only run as a child of TestProbeGateBatch")
 	}
 	needNode(t)
-	defer dropNode()
 	pool := boot.Pool()
 	rounds, adders := 300, 3
 	if raceEnabled {
@@ -1386,7 +1380,6 @@ func TestProbeAddVsMark(t *testing.T) {
 		t.Skip("child process")
 	}
 	needNode(t)
-	defer dropNode()
 	pool := boot.Pool()
 	salt := atomic.AddUint64(&caseSeq, 1)
 	defer func() { _ = safely(func() { drainPool(pool) }) }()
